@@ -38,6 +38,7 @@ try:
         for seed in a.seeds.split(","):
             env = dict(os.environ); env["VERIF_REPO"] = dst; env["VERIF_SEED"] = seed
             env["VERIF_NOEVIDENCE"] = "1"
+            env.setdefault("VERIF_FAILFAST", "1")
             p = subprocess.run(["/venv/bin/python", "-m", "fvmc.run", pid, "--tier", a.tier], cwd=VERIF, env=env,
                                capture_output=True, text=True)
             viol = [l for l in p.stdout.splitlines() if l.startswith("VIOLATION")]
